@@ -29,8 +29,9 @@ package storage
 //@ -- ═════════ the deep copy handed to callers ═════════
 //@ -- cloneCustodianUpdate: a NEW request with the same content (every pointer-held part copied: custodian, signature, nodes and their
 //@ -- extra bytes), carrying the given transaction hash and timestamp; the source object is not written (`modifies nothing`).
-//@ spec ReqShape(o *common.CustodianUpdateRequest) bool = o != nil && !fresh(o) && !fresh(o.Nodes) &&
-//@     (forall k int :: {o.Nodes[k]} 0 <= k && k < len(o.Nodes) ==> o.Nodes[k] != nil && !fresh(o.Nodes[k]) && len(o.Nodes[k].Extra) == 353 && !fresh(o.Nodes[k].Extra))
+//@ -- ReqShape(o): o and everything it points to exist (in a precondition: existed before the call), nodes non-nil with 353 extra bytes
+//@ spec ReqShape(o *common.CustodianUpdateRequest) bool = o != nil && allocated(o) && allocated(o.Nodes) && allocated(o.Custodian) && allocated(o.Signature) &&
+//@     (forall k int :: {o.Nodes[k]} 0 <= k && k < len(o.Nodes) ==> o.Nodes[k] != nil && allocated(o.Nodes[k]) && len(o.Nodes[k].Extra) == 353 && allocated(o.Nodes[k].Extra))
 //@ func cloneCustodianUpdate
 //@   property C11
 //@   requires ReqShape(cur)
@@ -47,3 +48,32 @@ package storage
 //@   loop 0 invariant [copied] forall k int :: {cloned.Nodes[k]} 0 <= k && k <= rangeindex ==> cloned.Nodes[k] != nil && fresh(cloned.Nodes[k]) && allocated(cloned.Nodes[k]) &&
 //@       cloned.Nodes[k].Custodian == cur.Nodes[k].Custodian && cloned.Nodes[k].Payee == cur.Nodes[k].Payee &&
 //@       len(cloned.Nodes[k].Extra) == 353 && fresh(cloned.Nodes[k].Extra) && allocated(cloned.Nodes[k].Extra)
+
+//@ -- ═════════ one record: parse (or take from the cache) and copy ═════════
+//@ -- TxExtraOf(v): the Extra bytes (seq code) of the transaction whose stored encoding has the value id v: decoding is a function of the bytes.
+//@ uninterp TxExtraOf(v mathint) mathint
+//@ -- TxOf(t, h): value id of the stored transaction with the hash whose 32 bytes have id h
+//@ spec TxOf(t badger.Txn, h mathint) mathint = badger.kvget(t, TxKeyId(h))
+//@ -- EntryOK: the cache entry filed under (hash, genesis), if any, is a parse result of that transaction and flag. The cache invariant
+//@ -- "every entry is EntryOK" is ASSUMED for the entry a lookup touches (it relates the process-wide cache to the store: a TRANSACTION
+//@ -- entry referenced by a custodian record is never rewritten with different bytes) and PROVED to hold for it afterwards; a lookup writes
+//@ -- no other entry (LoadOrStore) and no cached object (`modifies *cache` only), so the invariant is preserved as a whole (meta-step).
+//@ spec EntryOK(cache *sync.Map, t badger.Txn, ck custodianCacheKey) bool = sync.smhas(*cache, iface(ck)) ==>
+//@     exists o *common.CustodianUpdateRequest :: sync.smval(*cache, iface(ck)) == iface(o) && ReqShape(o) &&
+//@        common.ReqIs(o, TxExtraOf(TxOf(t, kvval(ck.transaction))), ck.genesis)
+//@ spec EntryFor(cache *sync.Map, t badger.Txn, v mathint, g bool) bool = cache != nil ==>
+//@     forall ck custodianCacheKey :: {sync.smhas(*cache, iface(ck))} kvval(ck.transaction) == v && ck.genesis == g ==> EntryOK(cache, t, ck)
+//@ -- the iterator sits on a custodian record whose value is a 32-byte hash of a stored transaction, and sees what the transaction sees
+//@ spec OnCustRecord(t badger.Txn, it *badger.Iterator) bool = it != nil && badger.itkey(*it) != 0 && IsCustKey(badger.itkey(*it)) &&
+//@     badger.itget(it, badger.itkey(*it)) == badger.kvget(t, badger.itkey(*it)) && badger.vallen(badger.kvget(t, badger.itkey(*it))) == 32 &&
+//@     TxOf(t, badger.kvget(t, badger.itkey(*it))) != 0
+
+//@ func parseCustodianUpdateItem
+//@   property C11
+//@   requires txn != nil && OnCustRecord(*txn, it) && EntryFor(cache, *txn, badger.kvget(*txn, badger.itkey(*it)), genesis)
+//@   modifies *cache
+//@   ensures [reject] err != nil ==> result0 == nil
+//@   ensures [content] err == nil ==> result0 != nil && fresh(result0) && result0.Timestamp == keynum(badger.itkey(*it)) &&
+//@       kvval(result0.Transaction) == badger.kvget(*txn, badger.itkey(*it)) &&
+//@       common.ReqIs(result0, TxExtraOf(TxOf(*txn, badger.kvget(*txn, badger.itkey(*it)))), genesis)
+//@   ensures [cache-inv] EntryFor(cache, *txn, badger.kvget(*txn, badger.itkey(*it)), genesis)
